@@ -8,6 +8,7 @@ import (
 	"os"
 	"path/filepath"
 	"sort"
+	"strings"
 
 	"github.com/gogpu/naga"
 	"github.com/gogpu/naga/ir"
@@ -60,6 +61,10 @@ func cmdC02(c *ctx) {
 	// witnesses of recorded findings (file names given as arguments) always run
 	for _, name := range c.args {
 		f := filepath.Join(repoDir(), "snapshot", "testdata", "in", name)
+		if strings.Contains(name, "/") {
+			f = name // a program of /verif/corpus/C02, given by path
+			name = filepath.Base(name)
+		}
 		if src, err := os.ReadFile(f); err == nil {
 			if m := lowerQuiet(string(src)); m != nil {
 				c02CaseOpts(c, m, "corpus:"+name, string(src), spirv.Options{Version: spirv.Version1_3}, "v1.3 witness-default")
